@@ -59,6 +59,11 @@ INVALID = [
     ("copy-struct", "struct S\n{{\n\tm: {t},\n}}\nfn main() -> u8\n{{\n\tvar s = S {{ m: 2 }};\n\tvar r = S {{ m: 3 }};\n\tr = s;\n\treturn: 0\n}}\n", "533"),
     ("missing-address-pointer", "fn bump(q: &{t})\n{{\n\tq = q + 1;\n}}\nfn main() -> u8\n{{\n\tvar v: {t} = 1;\n\tbump(v);\n\treturn: 0\n}}\n", "513"),
     ("missing-address-slice-pointer", "fn fill(p: &[]{t})\n{{\n\tp[0] = 1;\n}}\nfn main() -> u8\n{{\n\tvar a: [2]{t} = [1, 2];\n\tfill(a);\n\treturn: 0\n}}\n", "513"),
+    ("missing-address-extern-pointer", "extern fn bump(q: &{t});\nfn main() -> u8\n{{\n\tvar v: {t} = 1;\n\tbump(v);\n\treturn: 0\n}}\n", "513"),
+    ("missing-address-extern-slice-pointer", "extern fn fill(p: &[]{t});\nfn main() -> u8\n{{\n\tvar a: [2]{t} = [1, 2];\n\tfill(a);\n\treturn: 0\n}}\n", "513"),
+    ("missing-address-extern-defined", "extern fn fill(p: &[]{t})\n{{\n\tp[0] = 7;\n}}\nfn main() -> u8\n{{\n\tvar a: [2]{t} = [1, 2];\n\tfill(a);\n\treturn: 0\n}}\n", "513"),
+    ("assign-through-extern-view", "extern fn f(x: []{t})\n{{\n\tx[0] = 1;\n}}\nfn main() -> u8\n{{\n\tvar a: [2]{t} = [1, 2];\n\tf(a);\n\treturn: 0\n}}\n", "530"),
+    ("copy-array-into-element", "fn id(i: usize) -> usize\n{{\n\treturn: i\n}}\nfn main() -> u8\n{{\n\tvar m: [2][2]{t} = [[1, 2], [3, 4]];\n\tvar row: [2]{t} = [5, 6];\n\tm[id(0)] = row;\n\treturn: 0\n}}\n", "531"),
     ("address-of-constant", "const K: {t} = 1;\nfn bump(q: &{t})\n{{\n\tq = q + 1;\n}}\nfn main() -> u8\n{{\n\tbump(&K);\n\treturn: 0\n}}\n", None),
     ("address-of-value-parameter", "fn bump(q: &{t})\n{{\n\tq = q + 1;\n}}\nfn g(a: {t})\n{{\n\tbump(&a);\n}}\nfn main() -> u8\n{{\n\tg(1);\n\treturn: 0\n}}\n", None),
     ("address-of-view-element-holder", "fn fill(p: &[]{t})\n{{\n\tp[0] = 1;\n}}\nfn g(x: []{t})\n{{\n\tfill(&x);\n}}\nfn main() -> u8\n{{\n\tvar a: [2]{t} = [1, 2];\n\tg(a);\n\treturn: 0\n}}\n", None),
